@@ -44,11 +44,15 @@ Value syntax trees (all lists/dicts/strings, JSON-able)
 Statements
   {'ph': P, 'k': 'def', 't': TYPE, 'n': NAME, 'v': VALUE}
   {'ph': P, 'k': 'args', 'id': ID, 'a': LIST}            % PROBE REC id=ID ARGS          (also as the [act] program)
-  {'ph': P, 'k': 'file', 'id': ID, 'ts': TS, 'rel': None | NAME}
+  {'ph': P, 'k': 'file', 'id': ID, 'ts': TS, 'rel': None | NAME [, 'quiet': True]}
                                                         file (-rel-act | -rel NAME) fID = TS ; then the file is read back
+                                                        (unless quiet)
   {'ph': P, 'k': 'run', 'pg': PROGRAM}                   run PROGRAM                     (also as the [act] program)
   {'ph': 'assert', 'k': 'tm', 'id': ID, 'tm': TM}        contents of a file holding TEXT : [!] TM
   {'ph': 'assert', 'k': 'im', 'im': IM}                  exit-code [!] IM
+  {'ph': P, 'k': 'dir', 'id': ID, 'fs': FS}              dir -rel-act dID = FS ; then the tree below dID is dumped
+  {'ph': 'assert', 'k': 'fm', 'id': ID, 'on': NAME, 'fm': FM}    exists -rel-act xID/NAME : [!] FM     (xID = FIXTURE)
+  {'ph': 'assert', 'k': 'fsm', 'id': ID, 'fsm': FSM}     dir-contents -rel-act xID : [!] FSM
   {'ph': P, 'k': 'cd', 'to': WORD}                       dir -rel-act WORD ; cd -rel-act WORD
                         (`help setup def`: a path relative the current directory "is relative the directory that is
                         current when the symbol is REFERENCED, not when it is defined"; the current directory is kept
@@ -74,12 +78,15 @@ BUILTIN_NAMES = tuple(sorted(BUILTIN_STRINGS)) + tuple(sorted(BUILTIN_PATHS))
 CREATABLE_ROOTS = ('act', 'tmp', 'cd')
 
 TEXT = 'ab\ncB\nAb c\nd\n'  # the fixed text that 'tm' uses (and transformer uses) work on
+# the directory that 'fm' / 'fsm' uses look at: relative path -> ('f', contents) | ('d',)
+FIXTURE = {'a.txt': ('f', TEXT), 'b': ('f', ''), 'sub': ('d',), 'sub/c.txt': ('f', 'x'), 'e': ('d',)}
 ACT_RC_OF_ARGS = 3  # exit code of the [act] probe when [act] is an 'args' statement
 
 _REF_RE = re.compile(r'@\[[A-Za-z0-9_]+\]@')
 _SAFE_REGEX = re.compile(r'[A-Za-z0-9_/ :-]+')
 _SAFE_REPL = re.compile(r'[A-Za-z0-9_/ :.-]*')
 _INT_LIT = re.compile(r'0|-?[1-9][0-9]*')
+_NAME_OK = re.compile(r'[A-Za-z0-9_.-]+')
 
 
 class Unspecified(Exception):
@@ -342,6 +349,8 @@ def r_stmt(st, probe, rec, negate=False):
         return [('%% %s %s %s %s' % (probe, rec, ctrl, r_list(st['a']))).rstrip(' ')]
     if k == 'file':
         p = _file_path(st)
+        if st.get('quiet'):
+            return ['file %s = %s' % (p, r_ts(st['ts']))]
         return ['file %s = %s' % (p, r_ts(st['ts'])),
                 'run %% %s %s id=%s,stdin=1 -existing-file %s' % (probe, rec, st['id'], p),
                 '  -stdin -contents-of %s' % p]
@@ -354,6 +363,18 @@ def r_stmt(st, probe, rec, negate=False):
                 'contents -rel-act g%s : %s( %s )' % (st['id'], '! ' if negate else '', r_tm(st['tm']))]
     if k == 'cd':
         return ['dir -rel-act ' + st['to'], 'cd -rel-act ' + st['to']]
+    if k == 'dir':
+        # tree.py (written into the case directory by the check) dumps the tree; the current directory is act/
+        return ['dir -rel-act d%s = %s' % (st['id'], r_fs(st['fs'])),
+                'run -python -existing-file -rel-home tree.py d%s %s.tree %s' % (st['id'], rec, st['id'])]
+    if k in ('fm', 'fsm'):
+        fixture = ['dir -rel-act x%s = {' % st['id'],
+                   '  file a.txt = "%s"' % TEXT.replace('\n', '@[NEW_LINE]@'),
+                   '  file b', '  dir sub = {', '    file c.txt = "x"', '  }', '  dir e', '}']
+        neg = '! ' if negate else ''
+        if k == 'fm':
+            return fixture + ['exists -rel-act x%s/%s : %s( %s )' % (st['id'], st['on'], neg, r_fm(st['fm']))]
+        return fixture + ['dir-contents -rel-act x%s : %s( %s )' % (st['id'], neg, r_fsm(st['fsm']))]
     assert k == 'im', st
     return ['exit-code %s( %s )' % ('! ' if negate else '', r_im(st['im']))]
 
@@ -591,6 +612,12 @@ def refs_of_stmt(st):
         return list(refs_im(st['im']))
     if k == 'cd':
         return []
+    if k == 'dir':
+        return list(refs_fs(st['fs']))
+    if k == 'fm':
+        return list(refs_fm(st['fm']))
+    if k == 'fsm':
+        return list(refs_fsm(st['fsm']))
     raise ValueError(k)
 
 
@@ -920,6 +947,88 @@ class Model:
             s = self.tt(tt, s)
         return s
 
+    # files -------------------------------------------------------------------------------------------------
+    def _simple_name(self, tok, slashes=False):
+        v = self.tok_str(tok)
+        parts = v.split('/') if slashes else [v]
+        if not all(_NAME_OK.fullmatch(p) for p in parts) or '..' in parts or '.' in parts:
+            raise Unspecified('file name outside the plain subset: %r' % v)
+        return v
+
+    def fm(self, e, tree, path):
+        """file-matcher on the file PATH of TREE"""
+
+        def prim(p, path):
+            k = p[0]
+            node = tree[path]
+            if k == 'type':
+                return node[0] == {'file': 'f', 'dir': 'd'}[p[1]]
+            if k == 'name':
+                return self._simple_name(p[1]) == path.split('/')[-1]  # a glob pattern without special characters
+            if k == 'contents':
+                if node[0] != 'f':
+                    raise Unspecified('HARD_ERROR: contents of a non-regular file')
+                return self.tm(p[1], node[1])
+            if k == 'dir-contents':
+                if node[0] != 'd':
+                    raise Unspecified('HARD_ERROR: dir-contents of a non-directory')
+                return self.fsm(p[1], tree, path)
+            raise ValueError(k)
+
+        return self._bool(e, path, 'file-matcher', prim)
+
+    def fsm(self, e, tree, dirpath):
+        """files-matcher on the direct contents of directory DIRPATH ('' = root) of TREE"""
+        pre = dirpath + '/' if dirpath else ''
+        children = sorted(p for p in tree if p.startswith(pre) and p != dirpath and '/' not in p[len(pre):])
+
+        def prim(p, _x):
+            k = p[0]
+            if k == 'is-empty':
+                return not children
+            if k == 'num-files':
+                return self.im(p[1], len(children))
+            if k in ('every-file', 'any-file'):
+                # every file is looked at (no short cut), so that the result does not depend on an iteration order
+                rs = [self.fm(p[1], tree, c) for c in children]
+                return all(rs) if k == 'every-file' else any(rs)
+            if k == 'fmatches':
+                rs = []
+                for name, fm in self.fc(p[1]):
+                    c = pre + name
+                    rs.append(c in tree and (fm is None or self.fm(fm, tree, c)))
+                return all(rs)
+            raise ValueError(k)
+
+        return self._bool(e, dirpath, 'files-matcher', prim)
+
+    def fc(self, e):
+        """-> [(file name, FM|None)]"""
+        if e[0] == 'ref':
+            return self.fc(self.env[e[1]].value)
+        return [(self._simple_name(name), fm) for name, fm in e[1]]
+
+    def fs(self, e, tree, prefix=''):
+        """populates TREE (relative path -> node) below PREFIX as the files-source says"""
+        if e[0] == 'ref':
+            return self.fs(self.env[e[1]].value, tree, prefix)
+        for kind, name, src in e[1]:
+            parts = self._simple_name(name, slashes=True).split('/')
+            for i in range(1, len(parts)):  # "Intermediate directories are created, if required."
+                d = prefix + '/'.join(parts[:i])
+                if d in tree and tree[d][0] != 'd':
+                    raise Unspecified('HARD_ERROR: path through a regular file')
+                tree[d] = ('d',)
+            path = prefix + '/'.join(parts)
+            if path in tree:
+                raise Unspecified('HARD_ERROR: "The path must not exist."')
+            if kind == 'file':
+                tree[path] = ('f', '' if src is None else self.ts(src))
+            else:
+                tree[path] = ('d',)
+                if src is not None:
+                    self.fs(src, tree, path + '/')
+
     def pgm(self, e):
         """-> (probe id, argv)"""
         if e[0] == 'probe':
@@ -939,6 +1048,8 @@ class Model:
         if sum(1 for st in stmts if st['ph'] == 'act') > 1:
             raise Unspecified('[act] holds a single PROGRAM')
         has_cd = any(st['k'] == 'cd' for st in stmts)
+        if has_cd and any(st['k'] == 'dir' for st in stmts):
+            raise Unspecified("the tree dump of a 'dir' statement needs act/ as current directory")
         # validation, over the whole case, in execution order, before anything is executed
         for i in order:
             st = stmts[i]
@@ -955,13 +1066,14 @@ class Model:
                     raise Unspecified('symbol built from a path relative the current directory, in a program with cd')
                 self.env[st['n']] = Sym(st['n'], st['t'], st['v'], refs)
         # execution: every symbol is constant; the only state is the current directory
-        trace, neg, cwds = [], {}, []
+        trace, neg, cwds, trees, trace_stmt = [], {}, [], [], []
         act_rc = 0
         self.roots = dict(self.roots)
 
         def emit(rec):
             trace.append(rec)
             cwds.append(self.roots['cd'])
+            trace_stmt.append(i)
 
         for i in order:
             st = stmts[i]
@@ -974,6 +1086,8 @@ class Model:
                 emit((st['id'], self.list_val(st['a']), None))
                 if st['ph'] == 'act':
                     act_rc = ACT_RC_OF_ARGS
+            elif k == 'file' and st.get('quiet'):
+                self.ts(st['ts'])
             elif k == 'file':
                 base = self.roots['act'] if st.get('rel') is None else self.path_val(self.env[st['rel']])
                 emit((st['id'], [base + '/f' + st['id']], self.ts(st['ts'])))
@@ -982,6 +1096,14 @@ class Model:
                 emit((pid, argv, None))
             elif k == 'tm':
                 neg[i] = not self.tm(st['tm'], TEXT)
+            elif k == 'dir':
+                tree = {}
+                self.fs(st['fs'], tree)
+                trees.append((st['id'], sorted([p] + list(n) for p, n in tree.items())))
+            elif k == 'fm':
+                neg[i] = not self.fm(st['fm'], FIXTURE, st['on'])
+            elif k == 'fsm':
+                neg[i] = not self.fsm(st['fsm'], FIXTURE, '')
             elif k == 'im':
                 neg[i] = None  # filled in below: needs the exit code of [act], which runs before [assert]
         for i in order:
@@ -993,7 +1115,8 @@ class Model:
                 rr = self.regex_path_roots(refs_of_stmt(stmts[i]))
                 if rr:
                     regex_roots[i] = sorted(rr)
-        return {'trace': trace, 'neg': neg, 'act_rc': act_rc, 'regex_roots': regex_roots, 'cwds': cwds}
+        return {'trace': trace, 'neg': neg, 'act_rc': act_rc, 'regex_roots': regex_roots, 'cwds': cwds,
+                'trees': trees, 'trace_stmt': trace_stmt}
 
     def _check_evaluable(self, st):
         """a definition is only generated if its value is inside the subset this model can evaluate"""
